@@ -57,20 +57,40 @@ def code_of(outcome) -> int:
     return 8
 
 
+A1_WHAT = ("anyio.Semaphore(..., fast_acquire=True) created while no event loop is running (SemaphoreAdapter) does not "
+           "forward fast_acquire to the backend semaphore: acquire() of a free semaphore yields although fast_acquire "
+           "was requested (A1; LockAdapter forwards it)")
+
+
 class BaseRun:
-    def _open(self, ntasks):
+    def _open(self, ntasks, make, adapter=False):
+        """make(anyio) builds the primitive.  adapter=False: inside the running loop (backend class);
+        adapter=True: BEFORE the loop runs - anyio hands out the *Adapter class, which creates the backend object
+        lazily at first use inside the loop."""
         import anyio
         from puppet import World
 
         self.anyio = anyio
+        self.adapter = adapter
         self.world = World()
         self.ntasks = ntasks
         self.ops: list[int] = []
         self.outs: list[int] = []
         self.mon: list[str] = []
         self.flags: set[str] = set()
+        self.known: set[str] = set()
         self._sess = self.world.session()
-        self._sess.__enter__()
+        if adapter:
+            self.obj = make(anyio)
+            self._sess.__enter__()
+            if not type(self.obj).__name__.endswith("Adapter"):
+                self.hit(f"creation outside the loop returned {type(self.obj).__name__}, not an adapter")
+            self.flags.add("adapter_mode")
+        else:
+            self._sess.__enter__()
+            self.obj = make(anyio)
+            if type(self.obj).__name__.endswith("Adapter"):
+                self.hit(f"creation inside the loop returned the adapter {type(self.obj).__name__}")
 
     def _spawn(self):
         for t in range(1, self.ntasks + 1):
@@ -85,7 +105,7 @@ class BaseRun:
         self._sess.__exit__(*a)
         # drop the loop / tasks / primitive: only the recorded history is needed from here on
         self.world = None
-        self.sem = self.lim = None
+        self.sem = self.lim = self.obj = None
         self.tid_of = None
 
     def runnable_set(self):
@@ -103,11 +123,15 @@ class SemRun(BaseRun):
     W = 2  # ints per op
     OW = 4  # ints per observation
 
-    def __init__(self, fast: bool, init: int, maxv, ntasks: int):
-        self._open(ntasks)
+    def __init__(self, fast: bool, init: int, maxv, ntasks: int, adapter: bool = False):
+        self._open(ntasks, lambda anyio: anyio.Semaphore(init, max_value=maxv, fast_acquire=fast), adapter)
         self.fast, self.init, self.maxv = fast, init, maxv
-        self.sem = self.anyio.Semaphore(init, max_value=maxv, fast_acquire=fast)
+        self.fast_eff = fast             # what the object does (differs from `fast` only under finding A1)
+        self.sem = self.obj
         self._spawn()
+        o = self.observe()
+        if o != [init, 0 if maxv is None else maxv + 1, 0]:
+            self.hit(f"construction parameters not honoured: value/max_value/tasks_waiting = {o} right after Semaphore({init}, max_value={maxv})")
         # monitor state (history only)
         self.heldc = {t: 0 for t in range(1, ntasks + 1)}
         self.extra = 0
@@ -119,10 +143,11 @@ class SemRun(BaseRun):
         self.fyset: set[int] = set()     # reserved tasks that are in the shielded yield
 
     def header(self):
-        return [1 if self.fast else 0, self.init, 0 if self.maxv is None else self.maxv + 1]
+        return [1 if self.fast_eff else 0, self.init, 0 if self.maxv is None else self.maxv + 1]
 
     def params(self):
-        return {"prim": "sem", "fast": self.fast, "init": self.init, "max": self.maxv, "ntasks": self.ntasks}
+        return {"prim": "sem", "fast": self.fast, "init": self.init, "max": self.maxv, "ntasks": self.ntasks,
+                "adapter": self.adapter}
 
     def observe(self):
         s = self.sem
@@ -206,14 +231,19 @@ class SemRun(BaseRun):
                 # uncontended path
                 if after[0] != before[0] - 1:
                     self.hit(f"acquire on the uncontended path: value {before[0]}->{after[0]}")
-                if self.fast:
+                if self.fast_eff and k == 1 and self.adapter:
+                    # construction parameter fast_acquire not honoured by the adapter: recorded finding A1
+                    self.known.add(A1_WHAT)
+                    self.flags.add("a1_adapter_ignores_fast_acquire")
+                    self.fast_eff = False
+                if self.fast_eff:
                     if k != 0:
-                        self.hit(f"fast_acquire on a free semaphore ended with {k}")
+                        self.hit(f"construction parameter fast_acquire=True not honoured: acquire on a free semaphore ended with {k}")
                     else:
                         self.heldc[t] += 1
                 else:
                     if k != 1:
-                        self.hit(f"acquire on a free semaphore did not yield (res {k})")
+                        self.hit(f"construction parameter fast_acquire=False not honoured: acquire on a free semaphore did not yield (res {k})")
                     else:
                         self.reserved.add(t)
                         self.fyset.add(t)
@@ -364,10 +394,10 @@ def tot_val(code: int):
 class LimRun(BaseRun):
     W = 3
 
-    def __init__(self, total_code: int, ntasks: int):
-        self._open(ntasks)
+    def __init__(self, total_code: int, ntasks: int, adapter: bool = False):
+        self._open(ntasks, lambda anyio: anyio.CapacityLimiter(tot_val(total_code)), adapter)
         self.total0 = total_code
-        self.lim = self.anyio.CapacityLimiter(tot_val(total_code))
+        self.lim = self.obj
         self._spawn()
         # foreign borrowers are hashable KEYS: every call builds a fresh, equal tuple (equality, not identity)
         self.foreign = (11, 12, 13)
@@ -378,12 +408,15 @@ class LimRun(BaseRun):
         self.cancel_req: set[int] = set()
         self.outside = False                   # history left the stated input domain (O2): monitors off
         self.lowered = False
+        o = self.observe()
+        if o != [0, total_code, INF_CODE if total_code < 0 else total_code, 0, 0]:
+            self.hit(f"construction parameter total_tokens not honoured: borrowed/total/available/waiting/borrowers = {o} right after CapacityLimiter({tot_val(total_code)})")
 
     def header(self):
         return [self.total0]
 
     def params(self):
-        return {"prim": "limiter", "total": self.total0, "ntasks": self.ntasks}
+        return {"prim": "limiter", "total": self.total0, "ntasks": self.ntasks, "adapter": self.adapter}
 
     def bobj(self, b):
         if b <= self.ntasks:
@@ -695,10 +728,11 @@ class LimRun(BaseRun):
 # running, generation
 # =====================================================================================================
 
-def make_run(params):
+def make_run(params, adapter=None):
+    ad = bool(params.get("adapter", False)) if adapter is None else adapter
     if params["prim"] == "sem":
-        return SemRun(bool(params["fast"]), params["init"], params["max"], params["ntasks"])
-    return LimRun(params["total"], params["ntasks"])
+        return SemRun(bool(params["fast"]), params["init"], params["max"], params["ntasks"], ad)
+    return LimRun(params["total"], params["ntasks"], ad)
 
 
 def op_possible(r, op) -> bool:
@@ -712,15 +746,21 @@ def op_possible(r, op) -> bool:
     return p.at_decision
 
 
-def run_script(params, flat_ops, quiesce=True, strict=False):
-    """Replay a flat op list on the implementation.  strict: return None if an op is not enabled."""
-    r = make_run(params)
+def run_script(params, flat_ops, quiesce=True, strict=False, adapter=None):
+    """Replay a flat op list on the implementation.  strict: return None if an op is not enabled.
+    adapter: override the creation mode stored in params."""
+    r = make_run(params, adapter)
     with r:
         W = r.W
         for i in range(0, len(flat_ops) - W + 1, W):
             op = tuple(flat_ops[i:i + W])
             if strict and op not in r.enabled():
                 return None
+            if not op_possible(r, op) and r.known:
+                # the run left the recorded behaviour through a recorded finding (A1): stop here, the prefix is
+                # still compared with the model
+                r.flags.add("replay_stopped_at_known_finding")
+                break
             if not op_possible(r, op):
                 # a stored script whose op cannot be performed any more: the implementation left the recorded
                 # behaviour earlier (e.g. a task is blocked where the script expects it at a decision point)
@@ -746,15 +786,15 @@ def walk(r, rng, nsteps, w, allow_outside=False):
         r.do(*rng.choices(en, ws)[0])
 
 
-def random_sem(rng, nsteps):
-    fast = rng.random() < 0.35
+def random_sem(rng, nsteps, adapter=False, fast=None):
+    fast = (rng.random() < 0.35) if fast is None else fast
     init = rng.choice([0, 0, 1, 1, 1, 2, 2, 3])
     maxv = rng.choice([None, None, init, init, init + 1, init + 2])
     if maxv == 0:
         maxv = rng.choice([None, 1])
     ntasks = rng.choice([2, 3, 3, 4, 5])
     w = {0: 5, 1: 1.5, 2: 3, 3: 5, 4: rng.choice([0.5, 2, 4]), "extra": rng.choice([0.05, 0.3, 1.0])}
-    r = SemRun(fast, init, maxv, ntasks)
+    r = SemRun(fast, init, maxv, ntasks, adapter)
     with r:
         walk(r, rng, nsteps, w)
         r.quiesce()
@@ -900,6 +940,107 @@ def replay(path):
     return 1 if (r.mon or r.outs != m) else 0
 
 
+# adapter census (part of tie T): the objects handed out when no event loop runs must be pure forwarders.
+# Table: adapter class -> (lazy property, backend factory, {method: how it must be implemented}).
+#   "delegate"  the body calls / reads the attribute of the same name on the lazily created backend object
+#   "ctor:<p>"  answers from the stored constructor parameter p (no backend state involved)
+ADAPTER_TABLE = {
+    "SemaphoreAdapter": ("_semaphore", "create_semaphore", {
+        "acquire": "delegate", "acquire_nowait": "delegate", "release": "delegate", "value": "delegate",
+        "statistics": "delegate", "max_value": "ctor:max_value"}),
+    "CapacityLimiterAdapter": ("_limiter", "create_capacity_limiter", {
+        "__aenter__": "delegate", "__aexit__": "delegate", "total_tokens": "delegate", "borrowed_tokens": "delegate",
+        "available_tokens": "delegate", "acquire_nowait": "delegate", "acquire_on_behalf_of_nowait": "delegate",
+        "acquire": "delegate", "acquire_on_behalf_of": "delegate", "release": "delegate",
+        "release_on_behalf_of": "delegate", "statistics": "delegate"}),
+}
+
+
+def adapter_census():
+    """Syntactic check of anyio/_core/_synchronization.py (the tree under test).  Returns (refusals, known):
+    every constructor parameter is forwarded to the backend factory under its own name, every method delegates
+    to the backend member of the same name, no method outside the table exists (fail closed)."""
+    import ast
+    import anyio._core._synchronization as mod
+
+    src = open(mod.__file__).read()
+    tree = ast.parse(src)
+    classes = {n.name: n for n in tree.body if isinstance(n, ast.ClassDef)}
+    bad, known = [], []
+    for cname, (lazy, factory, table) in ADAPTER_TABLE.items():
+        cls = classes.get(cname)
+        if cls is None:
+            bad.append(f"{cname}: class not found")
+            continue
+        funcs: dict[str, list] = {}
+        for n in cls.body:
+            if isinstance(n, (ast.FunctionDef, ast.AsyncFunctionDef)):
+                funcs.setdefault(n.name, []).append(n)
+        init = funcs.get("__init__", [None])[0]
+        if init is None or lazy not in funcs:
+            bad.append(f"{cname}: __init__ / {lazy} missing")
+            continue
+        params = [a.arg for a in init.args.args[1:]] + [a.arg for a in init.args.kwonlyargs]
+        positional = [a.arg for a in init.args.args[1:]]
+        # --- the factory call inside the lazy property forwards every constructor parameter ---
+        calls = [c for c in ast.walk(funcs[lazy][0]) if isinstance(c, ast.Call)
+                 and isinstance(c.func, ast.Attribute) and c.func.attr == factory]
+        if len(calls) != 1:
+            bad.append(f"{cname}.{lazy}: expected exactly one call of {factory}, found {len(calls)}")
+            continue
+        call = calls[0]
+
+        def is_stored(node, pname):
+            return (isinstance(node, ast.Attribute) and isinstance(node.value, ast.Name) and node.value.id == "self"
+                    and node.attr == "_" + pname)
+        forwarded = set()
+        for i, a in enumerate(call.args):
+            if i < len(positional) and is_stored(a, positional[i]):
+                forwarded.add(positional[i])
+            else:
+                bad.append(f"{cname}.{lazy}: positional argument {i} of {factory} is not self._{positional[i] if i < len(positional) else '?'}")
+        for kw in call.keywords:
+            if kw.arg in params and is_stored(kw.value, kw.arg):
+                forwarded.add(kw.arg)
+            else:
+                bad.append(f"{cname}.{lazy}: keyword {kw.arg}= of {factory} is not forwarded from self._{kw.arg}")
+        for pname in params:
+            if pname not in forwarded:
+                msg = f"{cname}.{lazy}: constructor parameter {pname} is not forwarded to {factory}"
+                if cname == "SemaphoreAdapter" and pname == "fast_acquire":
+                    known.append(A1_WHAT)
+                else:
+                    bad.append(msg)
+        # --- every member delegates to the member of the same name ---
+        for fname, defs in funcs.items():
+            if fname in ("__new__", "__init__", lazy):
+                continue
+            how = table.get(fname)
+            if how is None:
+                bad.append(f"{cname}.{fname}: member outside the census table")
+                continue
+            for d in defs:      # property getter and setter both listed under the same name
+                attrs = [a for a in ast.walk(d) if isinstance(a, ast.Attribute)]
+                if how == "delegate":
+                    ok = any(a.attr == fname and isinstance(a.value, ast.Attribute) and isinstance(a.value.value, ast.Name)
+                             and a.value.value.id == "self" and a.value.attr in (lazy, "_internal" + lazy)
+                             for a in attrs)
+                    if not ok:
+                        bad.append(f"{cname}.{fname}: does not delegate to self.{lazy}.{fname}")
+                    others = [a.attr for a in attrs if isinstance(a.value, ast.Attribute) and isinstance(a.value.value, ast.Name)
+                              and a.value.value.id == "self" and a.value.attr in (lazy, "_internal" + lazy) and a.attr != fname]
+                    if others:
+                        bad.append(f"{cname}.{fname}: uses backend member(s) {sorted(set(others))} of a different name")
+                else:
+                    pname = how.split(":")[1]
+                    if not any(is_stored(a, pname) for a in attrs):
+                        bad.append(f"{cname}.{fname}: does not answer from self._{pname}")
+        for fname in table:
+            if fname not in funcs:
+                bad.append(f"{cname}.{fname}: member of the census table is missing")
+    return bad, known
+
+
 def constructor_checks():
     """Argument validation of the constructors (model-independent oracle)."""
     import anyio
@@ -1004,6 +1145,18 @@ def check(tier: str) -> int:
         ex += exhaustive({"prim": "limiter", "total": 1, "ntasks": 3}, 5, lim_dup_alphabet)
         ex += exhaustive({"prim": "limiter", "total": 0, "ntasks": 3}, 4, lim_dup_alphabet)
     runs += ex
+    # second creation mode: the same script on an object created BEFORE the loop runs (SemaphoreAdapter /
+    # CapacityLimiterAdapter); it must be observationally identical, so it is compared with the same model
+    n_inloop = len(runs)
+    twins = [run_script(r.params(), r.ops, quiesce=False, adapter=True) for r in runs if not r.adapter]
+    for _ in range(40 if quick else 400):     # own walks on adapters (fast_acquire requested: finding A1 keeps replays short)
+        twins.append(random_sem(rng, rng.choice(lens), adapter=True, fast=True))
+    for _ in range(40 if quick else 400):
+        twins.append(random_sem(rng, rng.choice(lens), adapter=True))
+    runs += twins
+    census_bad, census_known = adapter_census()
+    for kmsg in sorted({k for r in runs for k in r.known} | set(census_known)):
+        rep.known_finding(kmsg)
     ctor_bad = constructor_checks()
     stage["impl_runs"] = round(time.time() - t0, 1); t0 = time.time()
 
@@ -1069,6 +1222,8 @@ def check(tier: str) -> int:
         tie_broken.append(f"model rejected {rejected} ops the implementation performed")
     if not vm_ok and not disagreements:
         tie_broken.append("vm_compute sample disagrees with extracted model")
+    for b in census_bad:
+        tie_broken.append("adapter census (tie T): " + b)
     if tie_broken and not monitor_hits and not ctor_bad:
         d = min(disagreements, key=lambda d: len(d["ops"])) if disagreements else None
         rep.violation("; ".join(tie_broken), {"kind": "tie", "broken": tie_broken, "case": d, "tie_T": tie_T}, no_input=True)
@@ -1111,6 +1266,10 @@ def check(tier: str) -> int:
         "model_rejected_ops": rejected,
         "monitor_hits": len(monitor_hits),
         "stage_seconds": stage,
+        "creation_modes": {"inside_loop_cases": n_inloop, "adapter_cases": len(runs) - n_inloop},
+        "adapter_census": {"table": {k: sorted(v[2]) for k, v in ADAPTER_TABLE.items()}, "refusals": census_bad,
+                           "known": census_known},
+        "known_findings_seen": sorted({k for r in runs for k in r.known} | set(census_known)),
         "constructor_validation_failures": ctor_bad,
         "samples": [{"params": runs[i].params(), "ops": readable(runs[i])[:30], "outs": runs[i].outs[:60]} for i in vm_idx[:2] + vm_idx[-2:]],
     })
